@@ -83,7 +83,7 @@ func (f *FakeServer) loop() {
 		go func() {
 			defer f.wg.Done()
 			defer conn.Close()
-			conn.SetDeadline(time.Now().Add(5 * time.Second))
+			conn.SetDeadline(time.Now().Add(120 * time.Second))
 			var act Action
 			var req []byte
 			if b == nil {
@@ -228,7 +228,7 @@ func (r *TCPRelay) loop() {
 		go func() {
 			defer r.wg.Done()
 			defer conn.Close()
-			conn.SetDeadline(time.Now().Add(10 * time.Second))
+			conn.SetDeadline(time.Now().Add(120 * time.Second))
 			switch out.Kind {
 			case "close":
 				return
@@ -251,7 +251,7 @@ func (r *TCPRelay) loop() {
 				return
 			}
 			defer up.Close()
-			up.SetDeadline(time.Now().Add(10 * time.Second))
+			up.SetDeadline(time.Now().Add(120 * time.Second))
 			up.Write(req)
 			reply, _ := io.ReadAll(up)
 			if out.Kind == "short" && out.Keep < len(reply) {
